@@ -551,6 +551,18 @@ def query_specs(rng, thorough):
         ("exon", "tg2", "tt3", "chr2", 15, 40, "-"),
     ]))
     S.append(gff3_spec("Q3", "mkS", [("exon", None, (), "chr1", 7, 7, "+", "")]))
+    # Q4: explicit ids that LOOK like generated keys ('exon_1', 'CDS_2'; no counter stored for those types): a read-style
+    # call that generates ids for its results (merge, children_bp) has no business recording anything about them
+    S.append(gff3_spec("Q4", "mkE", [
+        ("gene", "g1", (), "chr1", 1, 500, "+", ""),
+        ("mRNA", "m1", ("g1",), "chr1", 1, 500, "+", ""),
+        ("exon", "exon_1", ("m1",), "chr1", 1, 100, "+", ""),
+        ("exon", "exon_2", ("m1",), "chr1", 50, 200, "+", ""),
+        ("exon", "exon_3", ("m1",), "chr1", 300, 400, "+", ""),
+        ("exon", "exon_4", ("m1",), "chr1", 390, 500, "+", ""),
+        ("CDS", "CDS_1", ("m1",), "chr1", 60, 90, "+", ""),
+        ("CDS", "CDS_2", ("m1",), "chr1", 80, 120, "+", ""),
+    ]))
     for i in range(4 if thorough else 1):
         S.append(random_gff3_spec(rng, "QR%d" % i, "mkQR%d" % i, share_ids=True))
     return S
